@@ -18,7 +18,10 @@ import (
 // database files (EIO / ENOSPC). The child journals which units were acknowledged and which returned
 // an error, and dumps a full scan before closing. Oracle: the scan before close, and the scan after
 // a reopen in another process, equal the model built from the acknowledged units only.
-func c06IOFault(c *core.Ctx, res *core.Result) {
+func c06IOFault(c *core.Ctx, res *core.Result) { ioFaultCase(c, res, false) }
+
+// ioFaultCase is shared with C03, which runs it with transactions only ("a failed transaction leaves no trace").
+func ioFaultCase(c *core.Ctx, res *core.Result, txOnly bool) {
 	r := c.Rand
 	if _, err := exec.LookPath("strace"); err != nil {
 		res.Inconclusive = "strace not available"
@@ -26,6 +29,11 @@ func c06IOFault(c *core.Ctx, res *core.Result) {
 	}
 	cfg := kv.Cfg{MemTableSize: []int64{1024, 16 * 1024, 1 << 20, 32 << 20}[r.Intn(4)], MaxMemTables: r.Range(1, 4), SyncMode: 2, CompactSecs: 3600}
 	o := kv.GenOpts{NOps: r.Range(15, 60), NKeys: r.Range(3, 10), BigValues: r.Chance(25), Maintenance: r.Range(0, 5), Tx: true, Batch: true, BigTxPct: 8}
+	if txOnly {
+		o.TxWeight = 70
+		o.BigTxPct = 25
+		o.Batch = false
+	}
 	dir := filepath.Join(c.Dir, "db")
 	// create the database (and its first log file, which the child re-uses) without faults
 	e0, err := kv.Open(dir, cfg)
